@@ -10,7 +10,7 @@
    interpreted correspondence only (oracle + Coq interpreter on every generated case).
    delta_sound is false of the current source; the refuted edit kinds are below, delta_identity is proved in
    full; a general delta_sound_partial (soundness for all pairs without those edit kinds) is not proved. *)
-From Coq Require Import List NArith PArith Bool Permutation.
+From Coq Require Import String List NArith PArith Bool Permutation.
 Import ListNotations.
 Require Import Verif.Db.Depth Verif.Db.DepthProps Verif.Db.Script Verif.Db.SqlInterp Verif.Gen.DbTables
   Verif.Db.Tables Verif.Db.ScriptProps.
@@ -25,6 +25,14 @@ Theorem C16_type_table : forall p sz, pg_type p sz =
   match p with PString => TVarchar sz | PInt => TInteger | PDate => TDate | POther => TVarchar 50 end.
 Proof. exact pg_type_spec. Qed.
 Print Assumptions C16_type_table.
+
+Local Open Scope string_scope.
+Theorem C16_type_switch_arms :
+  (pg_types, pg_default, str_const, bigint_const, default_text_size) =
+  ([("string", Sized "varchar (" ")"); ("int", Lit "integer"); ("date", Lit "date")], Lit "varchar (50)", "string", "bigint", 50%N).
+Proof. exact pg_table_expected. Qed.
+Print Assumptions C16_type_switch_arms.
+Local Close Scope string_scope.
 
 (* ---- reference depth: terminates on acyclic graphs, independent of map order, equals longest path ---- *)
 Theorem C16_depth_is_longest_path : forall m d ord fuel,
